@@ -4,13 +4,11 @@ Driver for C18.  One request per line, fields separated by `|`, tokens inside a 
   R|<ty1>|<ty2>                  → `restr=<0|1> flat=<0|1>`
         is_sequence_type_restriction(ty1, ty2) by the model; flat = both types are in the region where
         the string-driven code and the AST agree by construction (see `Ty.flat`)
-  J|<xsd11 0/1>[|<dflt> <p> <q>]|<ty>|<value>     (optional: statically known namespaces, see `NsCfg`)  → `match=<r> inst=<r> treat=<r> spec=<T|F|-> fd=<0|1> fi=<0|1> dom=<0|1> fp=<0|1>`
+  J|<xsd11 0/1>[|<dflt> <p> <q>]|<ty>|<value>     (optional: statically known namespaces, see `NsCfg`)  → `match=<r> inst=<r> treat=<r> spec=<T|F|-> dom=<0|1> fp=<0|1>`
         r = T | F | E:<code>;  match = match_sequence_type, inst = `instance of`, treat = `treat as`
         (T = the operand is returned, F = XPDY0050),
         spec = SequenceType matching of XPath 3.1 with the model's restriction as subtype relation
         (`-` when the type uses a name that is no atomic type: static error, not modelled by the spec);
-        fd = trigger of finding F18d (kind tests evaluated as self-axis steps by `instance of`),
-        fi = trigger of finding F18i (map/array item against a typed function test),
         dom = value and type are inside the domain of the theorem `match_eq_spec`,
         fp = trigger of finding F18p (the parser rejects or corrupts this legal sequence type).
 
@@ -169,7 +167,7 @@ def judge (x : String) (cfg : NsCfg) (t v : String) : String :=
         | [.func sa sr], .func a r => if funcItemTestArg tables sa sr a r then "T" else "F"
         | _, _ => match convertArg tables xsd11 ty val with
           | .ok _ => "T" | .error .XPDY0050 => "F" | .error e => showRes (.error e)
-      s!"match={showRes m} inst={showRes i} treat={tr} spec={sp} fd={b01 (trigF18d ty val)} fi={b01 (trigF18i ty val)} dom={b01 (domT ty val)} fp={b01 ty.parserGap} fk={b01 ty.hasTypeArg} param={pr} fpp={b01 (ty.gapAt false false true)}"
+      s!"match={showRes m} inst={showRes i} treat={tr} spec={sp} dom={b01 (domT ty val)} fp={b01 ty.parserGap} fk={b01 ty.hasTypeArg} param={pr} fpp={b01 (ty.gapAt false false true)}"
   | _, _ => "bad-judgement"
 
 open EPV.Gen.C18 in
